@@ -181,8 +181,9 @@ struct Gen {
 	bool story = false;     // plan story: tasks of the active state, the active state reporting, vetoes of the fired request
 
 	Gen(Rng& r, const SutInfo& i, const GenProfile& p) : rng(r), info(i), prof(p) {
-		N = info.n_states; C = info.capacity; plans = info.f_plans && !prof.neutral; serial = info.f_serial && !prof.neutral;
-		history = info.f_history && !prof.neutral; log = info.f_log && !prof.neutral && !prof.ignore_log; manual = info.manual; payload = info.payload_kind != 0;
+		const bool uP = prof.use.find('P') != std::string::npos, uS = prof.use.find('S') != std::string::npos, uH = prof.use.find('H') != std::string::npos;
+		N = info.n_states; C = info.capacity; plans = info.f_plans && (!prof.neutral || uP); serial = info.f_serial && (!prof.neutral || uS);
+		history = info.f_history && (!prof.neutral || uH); log = info.f_log && !prof.neutral && !prof.ignore_log; manual = info.manual; payload = info.payload_kind != 0;
 		root_outcomes = info.defines[SUT_INVALID][M_PLAN_SUCCEEDED] && info.defines[SUT_INVALID][M_PLAN_FAILED];
 	}
 
@@ -214,14 +215,14 @@ struct Gen {
 			} else {
 				if (r < 45) return change_action();
 			}
-			if (plans && root_outcomes && !prof.neutral && r < 80) {
+			if (plans && root_outcomes && r < 80) {
 				int k = static_cast<int>(rng.below(10));
 				if (k < 4 && !is_root) { a.kind = A_SUCCEED_SELF; return a; }
 				if (k < 6 && !is_root) { a.kind = A_FAIL_SELF; return a; }
 				if (k < 8) { a.kind = A_SUCCEED; a.a = static_cast<uint8_t>(state()); maybe_self(a, 0, 30); return a; }
 				a.kind = A_FAIL; a.a = static_cast<uint8_t>(state()); maybe_self(a, 0, 30); return a;
 			}
-			if (plans && !prof.neutral) return plan_action();
+			if (plans) return plan_action();
 			if (!in_guard) return change_action();
 		}
 		return change_action();
@@ -330,7 +331,8 @@ struct Gen {
 		case OP_CLEAN_RESTART: add_reactions(op, act, 3, true); break;
 		case OP_ENTER: add_reactions(op, act, 3, true); break;
 		case OP_EXIT: add_reactions(op, lif, 1, false); break;
-		case OP_REPLAY_TRANSITION: op.a = rng.chance(1, 6) ? SUT_INVALID : state(); add_reactions(op, lif, 3, false); break;
+		case OP_REPLAY_TRANSITION: op.a = rng.chance(1, 6) ? SUT_INVALID : state(); op.c = rng.chance(1, 4) ? 1 : 0; add_reactions(op, lif, 3, false); break;
+		case OP_COPY: op.b = rng.chance(1, 3) ? 1 : 0; break;
 		case OP_DELIVER: op.a = 1 + static_cast<int>(rng.below(4)); break;
 		case OP_CONSTRUCT: add_reactions(op, act, 3, true); break;
 		default: break;
